@@ -116,7 +116,8 @@ class aiorunner:
                 loop = asyncio.get_running_loop()
                 try:
                     md_item = await loop.run_in_executor(
-                        executor, functools.partial(self._task_f, md_item)
+                        executor,
+                        functools.partial(_run_unit, self._task_f, md_item),
                     )
                     future.set_result(md_item)
                 except Exception as e:
@@ -202,6 +203,36 @@ class aiorunner:
         # Close the event loop
         self._loop.call_soon_threadsafe(self._loop.stop)
         self._thread.join()
+
+
+def _run_unit(task_f: Callable, md_item: Dict[str, Any]) -> Any:
+    """Run one unit of work in the pool process.
+
+    An exception that asyncio cannot carry back to the worker task
+    (StopIteration, or anything that is not an Exception such as
+    SystemExit, KeyboardInterrupt, CancelledError) is converted here
+    into a RuntimeError, so that every failure of a unit reaches
+    its future.
+
+    Args:
+        task_f: the task function attached to the runner
+        md_item: a unit of work encapsulated in a dict
+
+    Return:
+        The result of the task function
+    """
+    try:
+        return task_f(md_item)
+    except StopIteration as exc:
+        raise RuntimeError(
+            f"unit raised {type(exc).__name__}: {exc}"
+        ) from exc
+    except Exception:
+        raise
+    except BaseException as exc:
+        raise RuntimeError(
+            f"unit raised {type(exc).__name__}: {exc}"
+        ) from exc
 
 
 def worker_initializer(counter):
